@@ -31,12 +31,14 @@ pub struct Config {
     pub latency_max_us: u64,
     pub rx_capacity: usize,
     pub short_read_permille: u32,
+    /// a write accepts only part of the buffer with this probability (a socket may always do so)
+    pub short_write_permille: u32,
     pub default_seg: Seg,
 }
 
 impl Default for Config {
     fn default() -> Self {
-        Config { seed: 1, epoch_secs: 1_700_000_000, latency_min_us: 50, latency_max_us: 200, rx_capacity: 256 * 1024, short_read_permille: 0, default_seg: Seg::Whole }
+        Config { seed: 1, epoch_secs: 1_700_000_000, latency_min_us: 50, latency_max_us: 200, rx_capacity: 256 * 1024, short_read_permille: 0, short_write_permille: 0, default_seg: Seg::Whole }
     }
 }
 
@@ -433,8 +435,13 @@ impl AsyncWrite for TcpStream {
                 n.eps[ep].write_waker = Some(cx.waker().clone());
                 return Ok(Poll::Pending);
             }
-            let k = buf.len().min(p.cap - used);
-            let seg = e.seg.clone().unwrap_or_else(|| n.cfg.default_seg.clone());
+            let mut k = buf.len().min(p.cap - used);
+            let shortw = n.cfg.short_write_permille;
+            if shortw > 0 && k > 1 && n.rng.below(1000) < shortw as u64 {
+                k = 1 + n.rng.below(k as u64 - 1) as usize;
+                n.count("tnet.short_write");
+            }
+            let seg = n.eps[ep].seg.clone().unwrap_or_else(|| n.cfg.default_seg.clone());
             let mut cuts: Vec<usize> = match seg {
                 Seg::Whole => vec![],
                 Seg::OneByte => (1..k).collect(),
